@@ -650,7 +650,11 @@ func recProg(r *Rng) *Q {
 	step := pipe(bin("add", id(), c(1)), call)
 	guard := bin("lt", id(), c(k))
 	var body *Q
-	switch r.Intn(9) {
+	switch r.Intn(11) {
+	case 10: // the call is followed by a pipe into a query that only defines a function: still a tail call for the scan
+		body = &Q{K: "if", A: guard, B: pipe(step, &Q{K: "def", N: 3, A: c(7), B: id()}), C: id()}
+	case 9: // ... or by a pipe into `.`, with the call in the left branch of a comma
+		body = &Q{K: "if", A: guard, B: pipe(&Q{K: "comma", A: step, B: c(k)}, id()), C: &Q{K: "empty"}}
 	case 8: // tail call in a function whose scope has no variable: optimizeTailRec turns it into a jump
 		body = &Q{K: "if", A: &Q{K: "index", A: id(), V: 0}, B: pipe(&Q{K: "index", A: id(), V: 1}, call), C: id()}
 	case 0: // tail call, a variable of the operator in the function scope: opcallrec
